@@ -39,9 +39,9 @@ __CPROVER_ensures((g_k >= __CPROVER_old(buffer->offset) && g_k < buffer->offset)
 __CPROVER_assigns(buffer->offset);
 
 /* parse_value / parse_string as callees of a container: the usual parse contract plus the call log */
-#define PV_LOG_CV(name, kindv, extra_ok) \
+#define PV_LOG_CV(name, kindv, extra_ok, extra_pre) \
 static cJSON_bool name(cJSON * const item, parse_buffer * const input_buffer) \
-__CPROVER_requires(__CPROVER_is_fresh(item, sizeof(cJSON)) && PB_FRESH(input_buffer) && g_pv_calls < KMAX) \
+__CPROVER_requires(__CPROVER_is_fresh(item, sizeof(cJSON)) && PB_FRESH(input_buffer) && g_pv_calls < KMAX && (extra_pre)) \
 __CPROVER_ensures(PB_SAME(input_buffer) && (RET ? input_buffer->depth == __CPROVER_old(input_buffer->depth) : input_buffer->depth >= __CPROVER_old(input_buffer->depth))) \
 __CPROVER_ensures(RET ==> (input_buffer->offset > __CPROVER_old(input_buffer->offset) && (extra_ok))) \
 __CPROVER_ensures(!RET ==> (item->type == __CPROVER_old(item->type) && item->valuestring == __CPROVER_old(item->valuestring) && item->child == __CPROVER_old(item->child))) \
@@ -50,8 +50,9 @@ __CPROVER_ensures(g_pv_calls == __CPROVER_old(g_pv_calls) + 1 && g_pvl[__CPROVER
     g_pvl[__CPROVER_old(g_pv_calls)].str == item->valuestring && g_pvl[__CPROVER_old(g_pv_calls)].kind == (kindv) && (RET == 0 || RET == 1)) \
 __CPROVER_ensures(LIVE_SAME && g_hook_frees == __CPROVER_old(g_hook_frees) && C14_POST(input_buffer->hooks)) \
 __CPROVER_assigns(ITEM_VALUE_FIELDS(item), input_buffer->offset, input_buffer->depth, GHOST_ALLOC, GHOST_STRTOD, g_pvl[g_pv_calls], g_pv_calls);
-PV_LOG_CV(parse_value_cv, D_VALUE, 1)
-PV_LOG_CV(parse_string_cv, D_STRING, (item->type == cJSON_String && __CPROVER_is_fresh(item->valuestring, 1)))
+/* parse_value checks every read itself; parse_string reads the byte at the offset unchecked, so its caller must guarantee one (C01) */
+PV_LOG_CV(parse_value_cv, D_VALUE, 1, 1)
+PV_LOG_CV(parse_string_cv, D_STRING, (item->type == cJSON_String && __CPROVER_is_fresh(item->valuestring, 1)), input_buffer->offset < input_buffer->length)
 
 /* cJSON_Delete as a callee of a failing container parse.  Its precondition demands that the chain handed over starts at the first node
  * and links EVERY node allocated so far (so a node that was allocated but not linked is reported, not silently leaked);
